@@ -444,6 +444,34 @@ type c08Model struct {
 	pods    []*c08Pod
 	metrics map[string]*slov1alpha1.NodeMetric // current report per node (nil/absent = none)
 	mver    map[string]int
+	// concurrent units: when an estimate oracle fires and the cache turns out not to hold an object
+	// the shadow model holds, the violation gets the narrow signature C08/lost-event/<kind>
+	labelLost bool
+}
+
+// lostObject names an object of node that the shadow model holds and the cache (anchored state
+// nodeInfo.nodeMetric / nodeInfo.podInfos) does not: "nodemetric", "pod" or "". Diagnosis only: it
+// never raises a violation by itself, it narrows the signature of one raised by an estimate oracle.
+func (m *c08Model) lostObject(node string) string {
+	hasMetric := false
+	uids := map[types.UID]bool{}
+	if n, ok := m.env.cache.getNodeInfo(node); ok && n != nil {
+		n.RLock()
+		hasMetric = n.nodeMetric != nil
+		for uid := range n.podInfos {
+			uids[uid] = true
+		}
+		n.RUnlock()
+	}
+	if m.metrics[node] != nil && !hasMetric {
+		return "nodemetric"
+	}
+	for _, p := range m.pods {
+		if nd, _ := p.assigned(); nd == node && !uids[p.uid] {
+			return "pod"
+		}
+	}
+	return ""
 }
 
 func c08NewModel(env *c08Env, nnodes, npods int) *c08Model {
@@ -711,7 +739,7 @@ func c08GenMetric(r *kit.Rand, env *c08Env, node string, ver int, now time.Time,
 		return nm // empty status: object just created, koordlet has not reported yet
 	}
 	if updateTime.IsZero() {
-		cands := []time.Time{now.Truncate(time.Second), now, now.Add(-time.Duration(r.Int63n(int64(2*interval)+1))), now.Add(5 * time.Second), now.Add(-3 * time.Hour)}
+		cands := []time.Time{now.Truncate(time.Second), now, now.Add(-time.Duration(r.Int63n(int64(2*interval) + 1))), now.Add(5 * time.Second), now.Add(-3 * time.Hour)}
 		for _, h := range hints {
 			if !h.ts.IsZero() {
 				// boundary "assigned within the report interval": updateTime-interval vs timestamp
@@ -1097,6 +1125,14 @@ func c08CheckNode(c *kit.Case, or *kit.Rand, m *c08Model, node string, modes []c
 	nm := m.metrics[node]
 	pods := m.assignedOn(node)
 	out := c08CheckOut{nAssigned: len(pods), metricKind: "none"}
+	sig := func(def string) string {
+		if m.labelLost {
+			if lost := m.lostObject(node); lost != "" {
+				return "C08/lost-event/" + lost
+			}
+		}
+		return def
+	}
 	fresh, order := c08Fresh(or, env, node, nm, pods)
 	if nm != nil {
 		out.metricKind = "full"
@@ -1118,7 +1154,7 @@ func c08CheckNode(c *kit.Case, or *kit.Rand, m *c08Model, node string, modes []c
 			continue
 		}
 		if lerr != nil {
-			c.Fail("C08/estimate/metric-lost", "%s: node %s has a metric report, live cache returned error %v (mode %s)", where, node, lerr, md)
+			c.Fail(sig("C08/estimate/metric-lost"), "%s: node %s has a metric report, live cache returned error %v (mode %s)", where, node, lerr, md)
 		}
 		if ferr != nil {
 			c.Harness("fresh cache with metric returned %v", ferr)
@@ -1128,7 +1164,7 @@ func c08CheckNode(c *kit.Case, or *kit.Rand, m *c08Model, node string, modes []c
 		}
 		c.Count("cmp_live_fresh", 1)
 		if !c08VecEq(lvec, fvec) {
-			c.Fail("C08/estimate/drift-vs-fresh/"+md.class(), "%s: node %s mode %s: incrementally maintained estimate %v != %v computed by a fresh cache fed the current report and the %d assigned pods (feed order: %s); resources %v",
+			c.Fail(sig("C08/estimate/drift-vs-fresh/"+md.class()), "%s: node %s mode %s: incrementally maintained estimate %v != %v computed by a fresh cache fed the current report and the %d assigned pods (feed order: %s); resources %v",
 				where, node, md, lvec, fvec, len(pods), order, []corev1.ResourceName(env.vec))
 		}
 		var st *c08ExpectStats
@@ -1152,7 +1188,7 @@ func c08CheckNode(c *kit.Case, or *kit.Rand, m *c08Model, node string, modes []c
 		c.Count("cmp_live_model", 1)
 		c.Count("cmp_live_model_"+md.class(), 1)
 		if !c08VecEq(lvec, want) {
-			c.Fail("C08/estimate/aggregation-vs-statement/"+md.class(), "%s: node %s mode %s: cache estimate %v != %v recomputed from the report and the %d assigned pods per the statement; resources %v; report: %s; pods: %s",
+			c.Fail(sig("C08/estimate/aggregation-vs-statement/"+md.class()), "%s: node %s mode %s: cache estimate %v != %v recomputed from the report and the %d assigned pods per the statement; resources %v; report: %s; pods: %s",
 				where, node, md, lvec, want, len(pods), []corev1.ResourceName(env.vec), c08MetricStr(nm), c08AssignedStr(pods))
 		}
 	}
